@@ -621,6 +621,9 @@ structure Facts where
   /-- no request path calls CeaseVigil twice for one BeginVigil (the swamp methods that auto-destroy do not cease a
       vigil that the gateway handler's deferred CeaseVigil gives back as well) -/
   ceasesVigilOnce : Tri
+  /-- (not used by `classify`: acknowledged deletes are outside the Lean statement; the schedule driver uses it)
+      DeleteTreasure refuses to work on a closed instance and the gateway goes on with the mapped one -/
+  deleteRefusesClosedInstance : Tri
   /-- (not used by `classify`; the schedule driver uses it) SaveFunction drops a queued delete marker when a key
       is re-created and deleteHandler queues a marker only for an object that has a file pointer -/
   recreateDropsDeleteMarker : Tri
